@@ -87,7 +87,8 @@ struct ScPlan {
     r: Option<usize>,
     src: Source<gherkin::Scenario>,
     /// Events of all attempts, in order, already wrapped for this scenario.
-    attempts: Vec<Vec<event::RetryableScenario<TW>>>,
+    /// (taken out, not cloned, when emitted: the stream must not depend on the events' `Clone`)
+    attempts: Vec<Vec<std::cell::Cell<Option<event::RetryableScenario<TW>>>>>,
 }
 
 #[derive(Clone, Copy)]
@@ -219,7 +220,8 @@ fn attempt_word(
         }
         if after {
             w.push(Scenario::hook_started(HookType::After));
-            let hook_fails = outcome == 3 || (must_fail && !failed) || (!must_fail && r.below(100) < 6);
+            // (after a failed or a skipped step the after hook still runs, and may fail as well)
+            let hook_fails = outcome == 3 || (must_fail && !failed) || (!must_fail && r.below(100) < 6) || (must_fail && failed && r.chance(1, 6));
             if hook_fails {
                 w.push(Scenario::hook_failed(HookType::After, world(), info(*r.pick(&kinds), nt())));
             } else {
@@ -310,6 +312,7 @@ pub fn generate_with(
                     break;
                 }
             }
+            let attempts = attempts.into_iter().map(|w: Vec<event::RetryableScenario<TW>>| w.into_iter().map(|e| std::cell::Cell::new(Some(e))).collect()).collect();
             ScPlan { f: fi, r: ri, src: Source::new(gs.clone()), attempts }
         };
         for (gs, s) in gf.scenarios.iter().zip(&f.scenarios) {
@@ -396,7 +399,7 @@ pub fn generate_with(
                 let p = &plans[si];
                 for (k, w) in p.attempts.iter().enumerate() {
                     for e in w {
-                        let ev = Cucumber::scenario(f_src[p.f].clone(), p.r.map(|ri| r_src[ri].1.clone()), p.src.clone(), e.clone());
+                        let ev = Cucumber::scenario(f_src[p.f].clone(), p.r.map(|ri| r_src[ri].1.clone()), p.src.clone(), e.take().expect("emitted once"));
                         let token = items.len() as u64;
                         items.push(Ok(stamp(Event::new(ev), token)));
                         meta.push(Meta { token, kind: Kind::Sc, f: Some(p.f), r: p.r, sc: Some((si, k)) });
@@ -504,7 +507,7 @@ pub fn generate_with(
                 Act::Sc(s) => {
                     let p = &plans[s];
                     let (k, pos) = cur[s];
-                    let e = p.attempts[k][pos].clone();
+                    let e = p.attempts[k][pos].take().expect("emitted once");
                     let ev = Cucumber::scenario(f_src[p.f].clone(), p.r.map(|ri| r_src[ri].1.clone()), p.src.clone(), e);
                     push(&mut items, &mut meta, Ok(ev), Kind::Sc, Some(p.f), p.r, Some((s, k)));
                     cur[s] = if pos + 1 == p.attempts[k].len() { (k + 1, 0) } else { (k, pos + 1) };
